@@ -69,6 +69,12 @@ Definition bind_sig (s : signature) (args : kwargs) : res kwargs :=
                                   | None => match snd p with Some d => d | None => VNone end
                                   end)) s).
 
+(** the dict display [{k1: d1, .., **kw}]: the listed names in order, each with [kw]'s value if
+    [kw] has the name, followed by the remaining items of [kw] *)
+Definition dict_union (defaults kw : kwargs) : kwargs :=
+  map (fun kd => (fst kd, get kw (fst kd) (snd kd))) defaults
+  ++ filter (fun kv => negb (memk (fst kv) (keys defaults))) kw.
+
 (** a method [g(self, k1, .., **kwargs)] called as [g(k1=v1, .., **kw)]: its [kwargs] is [kw] *)
 Definition hop (explicit kw : kwargs) : res kwargs :=
   if clash explicit kw then Raise TypeError else Ok kw.
@@ -122,13 +128,12 @@ Definition statistical_test (w : wrapper) (kw : kwargs) : res call :=
                            (Kmethod, get kw Kmethod VNone)] []
   | CVM =>     (* cramervonmises_2samp(x=X_ref, y=X, **kwargs) *)
       scipy_call cramervonmises_2samp [(Kx, vref); (Ky, vtest)] kw
-  | MWU =>     (* mannwhitneyu(x=X_ref, y=X, alternative=kwargs.get(..), nan_policy=kwargs.get(..), **kwargs) *)
-      scipy_call mannwhitneyu [(Kx, vref); (Ky, vtest);
-                               (Kalternative, get kw Kalternative (VStr "two-sided"));
-                               (Knan_policy, get kw Knan_policy (VStr "raise"))] kw
-  | Welch =>   (* ttest_ind(a=X_ref, b=X, equal_var=False, alternative=kwargs.get(..), **kwargs) *)
-      scipy_call ttest_ind [(Ka, vref); (Kb, vtest); (Kequal_var, VBool false);
-                            (Kalternative, get kw Kalternative (VStr "two-sided"))] kw
+  | MWU =>     (* mannwhitneyu(x=X_ref, y=X, **{"alternative": "two-sided", "nan_policy": "raise", **kwargs}) *)
+      scipy_call mannwhitneyu [(Kx, vref); (Ky, vtest)]
+                 (dict_union [(Kalternative, VStr "two-sided"); (Knan_policy, VStr "raise")] kw)
+  | Welch =>   (* ttest_ind(a=X_ref, b=X, equal_var=False, **{"alternative": "two-sided", **kwargs}) *)
+      scipy_call ttest_ind [(Ka, vref); (Kb, vtest); (Kequal_var, VBool false)]
+                 (dict_union [(Kalternative, VStr "two-sided")] kw)
   | Kuiper =>  (* KuiperTest._kuiper(X=X_ref, Y=X, **kwargs); _kuiper(X, Y) has no other parameter;
                   then ks_2samp(data1=np.sort(X), data2=np.sort(Y), alternative="two-sided") *)
       do args <- call_merge [(KX, vref); (KY, vtest)] kw;
@@ -365,7 +370,8 @@ Section Numeric.
   Definition kuiper_fpp (D : num A) (n m : Z) : num A :=
     let N : num A := ofZ (n * m) / ofZ (n + m) in
     let fuel := Z.to_nat (8 * (n + m) + 64) in
-    if D <? two / N then
+    if D <=? one / N then one
+    else if D <? two / N then
       one - factorialA N * fpow (D - one / N) (N - one)
     else if D <? ofZ 3 / N then
       let k := neg (N * D - one) / two in
@@ -408,8 +414,11 @@ Section Numeric.
   (** KuiperTest._kuiper: the reported statistic is ks_2samp(...).statistic, i.e. the KS D *)
   Definition kuiper_stat (X Y : list (num A)) : num A :=
     ofZ (ks_H X Y) / ofZ (zlen X * zlen Y).
+  (** np.clip(x, 0.0, 1.0) = minimum(maximum(x, 0), 1): NaN stays NaN *)
+  Definition clip01 (x : num A) : num A := if x <? zero then zero else if one <? x then one else x.
+  (** _kuiper returns (statistic, float(np.clip(p_value, 0.0, 1.0))) *)
   Definition kuiper_p (X Y : list (num A)) : num A :=
-    kuiper_fpp (kuiper_stat X Y) (zlen X) (zlen Y).
+    clip01 (kuiper_fpp (kuiper_stat X Y) (zlen X) (zlen Y)).
   (** the property's requirement on a p-value *)
   Definition p_valid (p : num A) : bool := (zero <=? p) && (p <=? one).
 End Numeric.
